@@ -36,3 +36,14 @@ var exemptionsC05 = map[string]string{
 var exemptionsC03 = map[string]string{
 	"lisp.EVAL | fmt.Errorf %s (around %s)": "the operand is the arity error the binder itself just created (neither a thrown value nor a builtin's error; nobody holds the original); the message is rebuilt with the function's head symbol for context",
 }
+
+var exemptionsC14 = map[string]string{
+	`types.Equal_Q | assert b.(Symbol)`:  "the gate at the top of the function returned false unless reflect.TypeOf(a) == reflect.TypeOf(b) or both are sequential; a Symbol is not sequential, so b has a's dynamic type here (reflection is not modelled by the fact engine; C14.gate checks the gate)",
+	`types.Equal_Q | assert b.(HashMap)`: "as above: b has a's dynamic type (HashMap is not sequential)",
+	`types.Equal_Q | assert b.(Set)`:     "as above: b has a's dynamic type (Set is not sequential)",
+}
+
+var exemptionsC20 = map[string]string{
+	`lib/call.call | slice functionFullName[:n]`:     "runtime.FuncForPC(...).Name() of a Go function always contains a dot (package.Function), so LastIndex cannot return -1 here",
+	`lib/call.call | slice functionFullName[n + 1:]`: "n+1 <= len for any n returned by LastIndex on the same string",
+}
